@@ -58,7 +58,10 @@ LEVEL_NOTE = ("Trusted: Lean kernel; scikit-learn 1.9.1 is not modelled, its con
               "classes, AP step integral, 0 for classes without positives) are stated in the model and compared with sklearn's "
               "output on every generated case. Tags travel to the model as content read from the fields of objects built like "
               "the ones handed to the code; class indices come from the Lean model of the encoder (C19), never from the "
-              "library's encoder; the geometry matcher's answer is a parameter of the detection driver (C07/C08). Unmodelled: "
+              "library's encoder; how a Tag object is made (its class below data.Tag, constructor / model_validate / model_copy, "
+              "the identity of its Term object) is not part of its content: that is today's behaviour (SimpleEncoder keys on "
+              "(term, value)); whether a Term *subclass* instance is the same term as a plain Term with the same fields is not "
+              "pinned (never generated side by side); the geometry matcher's answer is a parameter of the detection driver (C07/C08). Unmodelled: "
               "binary64/float32 rounding (scores on dyadic grids or one non-dyadic "
               "score per item so that float32 sums are exact; balanced accuracy and AP compared within 2^-40); exp/log of the "
               "multilabel clip score (closed form over the model's encodings compared within 2^-18, also inside the task). The "
@@ -75,7 +78,13 @@ RULE = ("end-to-end task inputs (vocabularies of 1-6 tags, sizes 1/2/3/4 forced;
         "vocabulary, equal contents at several positions incl. repeated predicted tags; 1-8 clips, clips on one side only, 0-4 "
         "sound events per clip, true tags incl. none and out-of-vocabulary, dyadic / one-hot non-dyadic / arbitrary (multilabel) "
         "scores, exact ties best class = left-over probability and between classes, scores exactly 0 and 1; the same content "
-        "handed over with shared Tag objects, numpy / int scores, tuples, positional arguments); histories of 3-5 evaluations in "
+        "handed over with shared Tag objects, numpy / int scores, tuples, positional arguments; construction paths of the tags, "
+        "independently for vocabulary / annotation / predicted tags: instances of Tag subclasses with and without a field of "
+        "their own, model_validate from a dictionary / around a Term object, model_copy shallow / deep / with update, one Term "
+        "object shared by all tags of a term vs equal separately built Terms, a query tag on the Term object of vocabulary tag i "
+        "with the value of vocabulary tag j, terms that are instances of a Term subclass: every (vocabulary form, annotation "
+        "form) pair per task over a pool with two values under one term, and 30 % of the random stream and 35 % of the "
+        "histories); histories of 3-5 evaluations in "
         "one process (vocabulary V1, a subset, the subset reordered, V1 again; two tasks alternating over the same live objects; "
         "objects reused after their tags were assigned, edited in place or model_copy'd; results poisoned by the caller; earlier "
         "results re-read at the end); direct calls of the metric functions on encoded arrays (float32 / float64, C / Fortran / "
@@ -84,7 +93,8 @@ RULE = ("end-to-end task inputs (vocabularies of 1-6 tags, sizes 1/2/3/4 forced;
 TRUSTED = ["scikit-learn 1.9.1 metrics (balanced_accuracy_score, accuracy_score, average_precision_score, jaccard_score, log_loss): "
            "outputs compared with the Lean definitions on every case",
            "numpy argmax / argsort(kind='mergesort') / mean; np.float32 for the value a score array stores",
-           "harness: reads the content of a tag from the fields of a freshly built Tag (tagpool.content); the class index is "
+           "harness: reads the content of a tag from the fields of a freshly built Tag (tagpool.content; the construction "
+           "variants of tagpool.fresh are content-preserving: same fields read back); the class index is "
            "computed in Lean by C19's model of SimpleEncoder (theorem C09_tags_bridge)",
            "the geometry matcher (match_geometries): its answer per evaluated clip is a parameter of the detection driver "
            "(properties C07 / C08 cover it)"]
@@ -735,10 +745,18 @@ def _pool_and_vocab(rng, lo=1, hi=6, size=None):
             pool = TP.gen_pool(rng)
             vocab = rng.sample(POSITIONS, n)
         if rng.random() < 0.2:
-            # terms that are instances of a Term subclass: other terms than the plain Term with the same fields
+            # some terms as instances of a Term subclass.  One class per term content within a pool: whether a Term
+            # subclass instance is the same term as a plain Term with the same fields (today it is not: pydantic's
+            # __eq__ compares the classes; C19's model compares fields) is not for this check to pin, so the two never
+            # stand side by side
+            cls = {}
             for d in pool:
-                if "term" in d and rng.random() < 0.35:
-                    d["termcls"] = rng.choice(TP.TERM_CLASSES)
+                if "term" in d:
+                    k = jkey(d["term"])
+                    if k not in cls:
+                        cls[k] = rng.choice(TP.TERM_CLASSES) if rng.random() < 0.4 else None
+                    if cls[k]:
+                        d["termcls"] = cls[k]
         vocab = TP.dedupe_ids(pool, vocab)
         if size is None or len(vocab) == size:
             return pool, vocab
@@ -1390,12 +1408,12 @@ def _stage_exhaustive(ctx):
 
 
 # the pool of the construction-path stage: two values under one term (so that the Term object of one vocabulary tag can
-# come with the value of another), the same value under a sibling term, near misses, the same fields as instances of
-# Term subclasses (other terms today), the deprecated key= spelling
+# come with the value of another), the same value under a sibling term, near misses, a term that is an instance of a
+# Term subclass (under two values), the deprecated key= spelling
 FORM_POOL = [{"term": TP.T_GBIF, "value": "Turdus"}, {"term": TP.T_GBIF, "value": "Parus"},
              {"term": TP.T_EBIRD, "value": "Turdus"}, {"term": TP.T_GBIF, "value": "turdus"},
-             {"term": TP.T_URI, "value": "Turdus"}, {"term": TP.T_GBIF, "value": "Turdus", "termcls": "sub"},
-             {"term": TP.T_GBIF, "value": "Parus", "termcls": "subx"}, {"key": "taxon", "value": "Turdus"}]
+             {"term": TP.T_URI, "value": "Turdus"}, {"term": TP.T_CALL, "value": "Turdus", "termcls": "sub"},
+             {"term": TP.T_CALL, "value": "Parus", "termcls": "sub"}, {"key": "taxon", "value": "Turdus"}]
 
 
 def _gen_form_cases(rng, t, reps=1):
@@ -1408,7 +1426,8 @@ def _gen_form_cases(rng, t, reps=1):
         for i, vf in enumerate(F):
             for j, qf in enumerate(F):
                 k += 1
-                vocab = [0, 1] + rng.sample(range(2, 8), rng.choice([0, 1, 1, 2]))
+                vocab = [0, 1] + rng.sample(range(2, 8), rng.choice([0, 1, 1, 2])) + ([5, 6] if k % 4 == 0 else [])
+                vocab = list(dict.fromkeys(vocab))
                 rng.shuffle(vocab)
                 inp = gen_task(rng, t, pv=([dict(d) for d in FORM_POOL], vocab))
                 o = {key: v for key, v in (inp.get("opts") or {}).items() if key not in G.TAG_FORM_KEYS and key != "tags"}
